@@ -20,12 +20,14 @@
      * force_cell = SexpLazyArg.Force (generate the expression as a compile unit of its own,
        run it on a clone of the captured stack, memoise on success);
        subst_cell = functions.go:SubstituteFunction (the source as data);
-     * a ghost component `touched`: the cells that force / substitute were applied to.
+     * ghost components (never read by the evaluator): `touched`, the cells that force /
+       substitute were applied to; `gh`, which evaluations of cell sources are in progress,
+       how many were started, and whether one was started re-entrantly.
 
    Structure chosen for the proofs: everything that cannot see the thunk table is a
    computation C A over the core store `cstore` (exactly RefSem's store) and enters the
    evaluator through liftC; the thunk table is read and written by new_thunk, read_thunk,
-   set_memo only; sequencing is on_result (bindM, no_loop_sig and the loop-exit dispatch of
+   set_memo, begin_force, finish_force only; sequencing is on_result (bindM, no_loop_sig and the loop-exit dispatch of
    for_loop are instances).  Proofs/RefSemLazyProofs.v proves once that any predicate closed
    under these seven combinators holds of the whole evaluator. *)
 From Coq Require Import ZArith Bool List.
@@ -423,11 +425,25 @@ Inductive tsrc :=
 
 Record thunk := mkThunk { t_src : tsrc; t_memo : option value }.
 
+(* ghost bookkeeping of forcing (no influence on results; read only by the theorems):
+   forcing = cells whose source is being evaluated right now (innermost first),
+   evals   = one entry per evaluation of a cell's source that was ever started,
+   reent   = some force started evaluating a cell that was already being evaluated *)
+Record ghost := mkGhost { forcing : list nat; evals : list nat; reent : bool }.
+
 Record store := mkStore {
   core : cstore;
   thunks : list thunk;     (* cell = index; cells are never removed *)
-  touched : list nat       (* ghost: cells that force / substitute were applied to, newest first *)
+  touched : list nat;      (* ghost: cells that force / substitute were applied to, newest first *)
+  gh : ghost
 }.
+
+Definition add_cell (s : store) (t : thunk) : store :=
+  mkStore (core s) (thunks s ++ [t]) (touched s) (gh s).
+Definition memo_of (s : store) (c : nat) : option value :=
+  match nth_error (thunks s) c with Some t => t_memo t | None => None end.
+Fixpoint remove1 (c : nat) (l : list nat) : list nat :=
+  match l with [] => [] | x :: r => if Nat.eqb c x then r else x :: remove1 c r end.
 
 Definition M (A : Type) := store -> res A * store.
 
@@ -435,19 +451,40 @@ Definition pure {A} (r : res A) : M A := fun s => (r, s).
 Definition on_result {A B} (m : M A) (k : res A -> M B) : M B :=
   fun s => let (r, s1) := m s in k r s1.
 Definition liftC {A} (f : C A) : M A :=
-  fun s => let (r, c1) := f (core s) in (r, mkStore c1 (thunks s) (touched s)).
+  fun s => let (r, c1) := f (core s) in (r, mkStore c1 (thunks s) (touched s) (gh s)).
 Definition new_thunk (src : tsrc) (memo : option value) : M value :=
-  fun s => (Done (VThunk (length (thunks s))),
-            mkStore (core s) (thunks s ++ [mkThunk src memo]) (touched s)).
+  fun s => (Done (VThunk (length (thunks s))), add_cell s (mkThunk src memo)).
 Definition read_thunk (c : nat) : M (option thunk) :=
-  fun s => (Done (nth_error (thunks s) c), mkStore (core s) (thunks s) (c :: touched s)).
+  fun s => (Done (nth_error (thunks s) c), mkStore (core s) (thunks s) (c :: touched s) (gh s)).
 Definition set_memo (c : nat) (v : value) : M unit :=
   fun s => (Done tt,
             mkStore (core s)
                     (match nth_error (thunks s) c with
                      | Some t => set_nth c (mkThunk (t_src t) (Some v)) (thunks s)
                      | None => thunks s
-                     end) (touched s)).
+                     end) (touched s) (gh s)).
+
+(* ghost: the evaluation of the source of cell c starts (called by force_cell when the memo it
+   read is empty).  It is RE-ENTRANT when c is already being evaluated. *)
+Definition begin_force (c : nat) : M unit :=
+  fun s => match memo_of s c with
+           | Some _ => (Done tt, s)
+           | None =>
+             let g := gh s in
+             (Done tt, mkStore (core s) (thunks s) (touched s)
+                               (mkGhost (c :: forcing g) (c :: evals g)
+                                        (reent g || existsb (Nat.eqb c) (forcing g))))
+           end.
+
+(* the evaluation of the source of cell c ended with value v: memoise, no longer in progress *)
+Definition finish_force (c : nat) (v : value) : M unit :=
+  fun s => match nth_error (thunks s) c with
+           | Some t =>
+             let g := gh s in
+             (Done tt, mkStore (core s) (set_nth c (mkThunk (t_src t) (Some v)) (thunks s)) (touched s)
+                               (mkGhost (remove1 c (forcing g)) (evals g) (reent g)))
+           | None => (Done tt, s)
+           end.
 
 Definition ret {A} (a : A) : M A := pure (Done a).
 Definition raise {A} (e : err) : M A := pure (Sig (SErr e)).
@@ -686,7 +723,8 @@ Section Open.
         match t_src t with
         | TVal v => _ <- set_memo c v ;; ret v
         | TSrc e env =>
-          if cc [] e then v <- ev env e ;; _ <- set_memo c v ;; ret v else raise ELoop
+          if cc [] e then _ <- begin_force c ;; v <- ev env e ;; _ <- finish_force c v ;; ret v
+          else raise ELoop
         end
       end
     end.
@@ -945,7 +983,7 @@ Definition prim_ident (p : prim) : ident :=
 Definition global_frame : frame := map (fun p => (prim_ident p, VPrim p)) all_prims.
 
 Definition init_store (failat : nat) : store :=
-  mkStore (mkC [global_frame] [] [] O failat) [] [].
+  mkStore (mkC [global_frame] [] [] O failat) [] [] (mkGhost [] [] false).
 
 (* ---- programs: the forms of one text, generated as one unit, run in the global frame ---- *)
 
